@@ -131,6 +131,7 @@ Inv_Layout ==
 
 Inv_Adjugate ==
     General =>
+        /\ AdjB(A) = Adj(A)
         /\ MatMul(A, Adj(A)) = Scale(Det(A), Identity(N))
         /\ MatMul(Adj(A), A) = Scale(Det(A), Identity(N))
 
